@@ -1,6 +1,6 @@
 (** C02 — panic-freedom lemmas for Model/Panics.v and for the composed request path. *)
 From Coq Require Import ZifyBool ZifyNat ZifyN.
-From KV Require Import Bytes RustInt RustStd Panics.
+From KV Require Import Bytes RustInt RustStd RustStdProofs Panics.
 From KV Require PathSan PathSanProofs Range RangeProofs RangeConn RangeConnProofs Http1Read Hosts HostsProofs Negotiate Cors.
 Open Scope N_scope.
 
@@ -259,3 +259,239 @@ Proof.
   unfold sub_u64. destruct (N.leb_spec end_ (pos + read)) as [_|]; [|lia]. cbn [obind].
   destruct (N.leb_spec (pos + read - end_) read) as [_|]; [|lia]. discriminate.
 Qed.
+
+(** * The HTTP/1 reader ([Model/Http1Read.v]): [parse::headers], [read::request], [Http1Body] *)
+Module Reader.
+Import Http1Read.
+
+Lemma slice_chk_ok lo hi (s : bytes) : (lo <= hi)%nat -> (hi <= length s)%nat -> slice_chk lo hi s = Ok (slice lo hi s).
+Proof.
+  intros H1 H2. unfold slice_chk, slice_get.
+  replace (Nat.leb lo hi && Nat.leb hi (length s))%bool with true; [reflexivity|].
+  symmetry. apply andb_true_iff. split; apply Nat.leb_le; assumption.
+Qed.
+
+Lemma nth_error_skipn_add {A} (l : list A) p j : nth_error (skipn p l) j = nth_error l (p + j).
+Proof.
+  revert l; induction p as [|p IH]; intros l; [reflexivity|].
+  destruct l as [|x l]; cbn [skipn Nat.add nth_error]; [destruct j; reflexivity|apply IH].
+Qed.
+
+Lemma nth_error_here {A} (pre : list A) c rest : nth_error (pre ++ c :: rest) (length pre) = Some c.
+Proof. rewrite nth_error_app2 by lia. rewrite Nat.sub_diag. reflexivity. Qed.
+
+Lemma pns_spec l i : position_non_space l = Some i -> forall j, (j < i)%nat -> nth_error l j = Some SP.
+Proof.
+  revert i; induction l as [|c r IH]; intros i H j Hj; cbn [position_non_space] in H; [discriminate|].
+  destruct (N.eqb_spec c SP) as [->|Hne].
+  - destruct (position_non_space r) as [k|] eqn:E; [|discriminate]. cbn in H. inversion H; subst.
+    destruct j as [|j]; [reflexivity|]. cbn [nth_error]. apply (IH k eq_refl). lia.
+  - inversion H; subst. lia.
+Qed.
+
+Lemma pns_pos c r i : position_non_space (c :: r) = Some i -> c = SP -> (1 <= i)%nat.
+Proof.
+  intros H ->. cbn [position_non_space] in H. rewrite N.eqb_refl in H.
+  destruct (position_non_space r); [|discriminate]. cbn in H. inversion H. lia.
+Qed.
+
+(** What the loop knows about [value_start] while it is inside a value. *)
+Definition vs_inv (all : bytes) (pos vs : nat) : Prop :=
+  ((vs <= pos)%nat \/ (forall i, (pos <= i < vs)%nat -> nth_error all i = Some SP)) /\
+  (((1 <= vs)%nat /\ nth_error all (vs - 1) <> Some CR) \/ (vs < pos)%nat).
+
+Lemma vs_inv_step all pos vs : vs_inv all pos vs -> vs_inv all (S pos) vs.
+Proof.
+  intros [[H1|H1] H2]; (split; [|destruct H2 as [H2|H2]; [left; exact H2|right; lia]]).
+  - left; lia.
+  - right. intros i Hi. apply H1. lia.
+Qed.
+
+Lemma hdr_loop_no_panic all : forall rest pre pos inval lf ns ne vs m,
+  all = pre ++ rest -> pos = length pre -> (inval = true -> vs_inv all pos vs) ->
+  hdr_loop all rest pos inval lf ns ne vs m <> Panic.
+Proof.
+  induction rest as [|byte rest' IH]; intros pre pos inval lf ns ne vs m Hall Hpos Hinv; cbn [hdr_loop]; [discriminate|].
+  assert (Hall' : all = (pre ++ [byte]) ++ rest') by (rewrite <- app_assoc; exact Hall).
+  assert (Hpos' : S pos = length (pre ++ [byte])) by (rewrite app_length; cbn; lia).
+  assert (Hbyte : nth_error all pos = Some byte) by (subst; apply nth_error_here).
+  assert (Hlen : (pos < length all)%nat) by (apply nth_error_Some; congruence).
+  destruct (N.eqb_spec byte CR) as [Hcr|Hncr].
+  { eapply IH; eauto. intros Hv. apply vs_inv_step. auto. }
+  destruct ((byte =? LF) && (S lf =? 2)%nat)%bool; [discriminate|].
+  destruct inval.
+  - specialize (Hinv eq_refl).
+    destruct (N.eqb_spec byte LF) as [Hlf|Hnlf].
+    + destruct (slice_get ns ne all) as [raw|]; [|discriminate].
+      destruct (header_name raw) as [name|]; [|discriminate].
+      assert (Hve : (vs <= (if prev_is_cr all pos then pos - 1 else pos))%nat
+                    /\ ((if prev_is_cr all pos then pos - 1 else pos) <= length all)%nat).
+      { destruct Hinv as [H1 H2].
+        assert (Hle : (vs <= pos)%nat).
+        { destruct H1 as [H1|H1]; [exact H1|].
+          destruct (Nat.le_gt_cases vs pos) as [?|Hgt]; [assumption|].
+          specialize (H1 pos ltac:(lia)). rewrite Hbyte in H1. inversion H1 as [E]. subst byte.
+          unfold LF, SP in E. discriminate. }
+        destruct (prev_is_cr all pos) eqn:Ecr; [|split; lia].
+        unfold prev_is_cr in Ecr. destruct pos as [|p]; [discriminate|].
+        destruct (nth_error all p) as [c|] eqn:Ep; [|discriminate]. apply N.eqb_eq in Ecr. subst c.
+        split; [|lia]. replace (S p - 1)%nat with p by lia.
+        destruct H2 as [[Hge Hncr2]|Hlt]; [|lia].
+        destruct (Nat.eq_dec vs (S p)) as [->|]; [|lia].
+        replace (S p - 1)%nat with p in Hncr2 by lia. congruence. }
+      destruct Hve as [Hv1 Hv2]. rewrite (slice_chk_ok _ _ _ Hv1 Hv2).
+      destruct (hvalue_ok _); [|discriminate].
+      eapply IH; eauto. discriminate.
+    + eapply IH; eauto. intros _. apply vs_inv_step. exact Hinv.
+  - destruct (N.eqb_spec byte COLON) as [Hc|Hnc].
+    + destruct (next_is_space all pos).
+      * eapply IH; eauto. discriminate.
+      * eapply IH; eauto. intros _. split; [left; lia|left]. split; [lia|].
+        replace (S pos - 1)%nat with pos by lia. rewrite Hbyte. subst byte. unfold COLON, CR. intros E; inversion E.
+    + destruct (N.eqb_spec byte SP) as [Hs|Hns].
+      * eapply IH; eauto. intros _. unfold value_start_from.
+        destruct (position_non_space (skipn pos all)) as [i|] eqn:Epn.
+        -- assert (Hsk : skipn pos all = byte :: rest').
+           { subst all pos. rewrite skipn_app, skipn_all, Nat.sub_diag. reflexivity. }
+           assert (Hi : (1 <= i)%nat) by (rewrite Hsk in Epn; eapply pns_pos; eauto).
+           assert (Hsp : forall j, (j < i)%nat -> nth_error all (pos + j) = Some SP).
+           { intros j Hj. rewrite <- nth_error_skipn_add. eapply pns_spec; eauto. }
+           split.
+           ++ right. intros k Hk. replace k with (pos + (k - pos))%nat by lia. apply Hsp. lia.
+           ++ left. split; [lia|]. replace (i + pos - 1)%nat with (pos + (i - 1))%nat by lia.
+              rewrite Hsp by lia. unfold SP, CR. intros E; inversion E.
+        -- split; [left; lia|right; lia].
+      * eapply IH; eauto. discriminate.
+Qed.
+
+Lemma parse_headers_no_panic b : parse_headers b <> Panic.
+Proof.
+  unfold parse_headers. apply (hdr_loop_no_panic b b [] 0%nat); try reflexivity. discriminate.
+Qed.
+
+Lemma hdr_loop_end all : forall rest pos inval lf ns ne vs m m' e,
+  (pos + length rest = length all)%nat ->
+  hdr_loop all rest pos inval lf ns ne vs m = Ok (m', e) -> (e <= length all)%nat.
+Proof.
+  induction rest as [|byte rest' IH]; intros pos inval lf ns ne vs m m' e Hl H; cbn [hdr_loop length] in *.
+  - inversion H; subst. lia.
+  - destruct (byte =? CR); [eapply IH; [|exact H]; lia|].
+    destruct ((byte =? LF) && (S lf =? 2)%nat)%bool; [inversion H; subst; lia|].
+    destruct inval.
+    + destruct (byte =? LF).
+      * destruct (slice_get ns ne all) as [raw|]; [|discriminate]. destruct (header_name raw) as [name|]; [|discriminate].
+        destruct (slice_chk _ _ all) as [v| |]; try discriminate.
+        destruct (hvalue_ok v); [|discriminate]. eapply IH; [|exact H]; lia.
+      * eapply IH; [|exact H]; lia.
+    + destruct (byte =? COLON); [destruct (next_is_space all pos); (eapply IH; [|exact H]; lia)|].
+      destruct (byte =? SP); (eapply IH; [|exact H]; lia).
+Qed.
+
+Definition scan_ok (all : bytes) (s : scan) : Prop :=
+  (sc_pe s <= sc_end s)%nat /\ (sc_pe s <= length all)%nat /\ (sc_end s <= S (length all))%nat.
+
+Lemma req_loop_ok all : forall rest pre pos st method ps pe ver lf,
+  all = pre ++ rest -> pos = length pre -> (length method <= pos)%nat -> (pe <= pos)%nat ->
+  req_loop all rest pos st method ps pe ver lf <> Panic /\
+  (forall s, req_loop all rest pos st method ps pe ver lf = Ok s -> scan_ok all s).
+Proof.
+  induction rest as [|byte rest' IH]; intros pre pos st method ps pe ver lf Hall Hpos Hm Hpe; cbn [req_loop].
+  { split; [discriminate|]. intros s H. inversion H; subst s. unfold scan_ok. cbn.
+    assert (length all = pos) by (subst; rewrite app_nil_r; reflexivity). lia. }
+  assert (Hall' : all = (pre ++ [byte]) ++ rest') by (rewrite <- app_assoc; exact Hall).
+  assert (Hpos' : S pos = length (pre ++ [byte])) by (rewrite app_length; cbn; lia).
+  assert (Hlen : (pos < length all)%nat).
+  { subst all pos. rewrite app_length. cbn. lia. }
+  destruct (byte =? CR); [apply (IH (pre ++ [byte])); auto; lia|].
+  destruct ((byte =? LF) && (S lf =? 2)%nat)%bool.
+  { split; [discriminate|]. intros s H. inversion H; subst s. unfold scan_ok. cbn. lia. }
+  destruct st.
+  - destruct ((byte =? SP) || (length method =? 7)%nat)%bool.
+    + rewrite slice_chk_ok by lia. destruct (method_ok _).
+      * apply (IH (pre ++ [byte])); auto; lia.
+      * split; [discriminate|]. intros s H; discriminate.
+    + apply (IH (pre ++ [byte])); auto; try lia. rewrite app_length. cbn. lia.
+  - destruct (byte =? SP); apply (IH (pre ++ [byte])); auto; lia.
+  - destruct ((byte =? LF) || (length ver =? 8)%nat)%bool.
+    + destruct (version_code ver).
+      * apply (IH (pre ++ [byte])); auto; lia.
+      * split; [discriminate|]. intros s H; discriminate.
+    + apply (IH (pre ++ [byte])); auto; lia.
+  - rewrite slice_chk_ok by lia.
+    destruct (parse_headers (slice pos (length all) all)) as [[h e]| |] eqn:Eh.
+    + split; [discriminate|]. intros s H. inversion H; subst s. unfold scan_ok. cbn.
+      unfold parse_headers in Eh. apply hdr_loop_end in Eh; [|cbn; lia].
+      rewrite slice_length in Eh by lia. lia.
+    + split; [discriminate|]. intros s H; discriminate.
+    + exfalso. eapply parse_headers_no_panic; eassumption.
+Qed.
+
+Lemma req_finish_no_panic https dh all s : scan_ok all s -> req_finish https dh all s <> Panic.
+Proof.
+  intros (H1 & H2 & H3). unfold req_finish.
+  destruct (Nat.leb_spec (sc_pe s) (sc_ps s)) as [|Hlt]; [discriminate|].
+  destruct (match hm_get host_name (sc_headers s) with Some h => Some h | None => dh end) as [host|]; [|discriminate].
+  rewrite slice_chk_ok by lia. cbn [obind].
+  destruct (negb (method_ok (sc_method s))); [discriminate|].
+  destruct (parse_uri https host _) as [[[auth path] query]|]; [|discriminate].
+  destruct (version_code (sc_ver s)); [|discriminate].
+  destruct (sc_end s) as [|body_start] eqn:Ee; [lia|].
+  rewrite slice_chk_ok by lia. discriminate.
+Qed.
+
+Lemma parse_request_no_panic https dh buffer : parse_request https dh buffer <> Panic.
+Proof.
+  unfold parse_request.
+  destruct (req_loop_ok buffer buffer [] 0%nat RMethod [] 0%nat 0%nat [] 0%nat eq_refl eq_refl (Nat.le_refl _) (Nat.le_refl _))
+    as [Hnp Hok].
+  destruct (req_loop buffer buffer 0 RMethod [] 0 0 [] 0) as [s| |] eqn:E; cbn [obind]; try discriminate.
+  - apply req_finish_no_panic. apply Hok. reflexivity.
+  - exfalso. apply Hnp. reflexivity.
+Qed.
+
+Lemma read_headers_no_panic grow : forall fuel mode max_len buf cap r,
+  read_headers grow fuel mode max_len buf cap r <> Panic.
+Proof.
+  induction fuel as [|f IH]; intros mode max_len buf cap r; cbn [read_headers]; [discriminate|].
+  destruct (max_len <=? length buf)%nat; [discriminate|].
+  destruct (rd_read _ _ _) as [got r'| |]; try discriminate.
+  destruct (null got); [discriminate|].
+  destruct (_ && _)%bool; [discriminate|].
+  destruct (contains_two_newlines _); [discriminate|apply IH].
+Qed.
+
+Lemma read_request_no_panic grow mode https dh max_len r : read_request grow mode https dh max_len r <> Panic.
+Proof.
+  unfold read_request.
+  destruct (read_headers grow _ mode max_len [] 512 r) as [br| |] eqn:E; cbn [obind]; try discriminate.
+  - destruct (parse_request https dh (fst br)) as [q| |] eqn:Eq; cbn [obind]; try discriminate.
+    exfalso. eapply parse_request_no_panic; eassumption.
+  - exfalso. eapply read_headers_no_panic; eassumption.
+Qed.
+
+Lemma rtem_loop_no_panic grow : forall fuel mode max_len buf cap take_left r,
+  rtem_loop grow fuel mode max_len buf cap take_left r <> Panic.
+Proof.
+  induction fuel as [|f IH]; intros mode max_len buf cap take_left r; cbn [rtem_loop]; [discriminate|].
+  destruct (take_left =? 0)%nat; [discriminate|].
+  destruct (rd_read _ _ _) as [got r'| |]; try discriminate.
+  destruct (null got); [discriminate|].
+  destruct (max_len <=? _)%nat; [discriminate|apply IH].
+Qed.
+
+Lemma read_to_bytes_no_panic grow mode early cl limit r : read_to_bytes grow mode early cl limit r <> Panic.
+Proof.
+  unfold read_to_bytes. destruct (_ =? 0)%nat; [discriminate|].
+  destruct (_ <=? _)%nat; [discriminate|apply rtem_loop_no_panic].
+Qed.
+
+Lemma serve_no_panic grow mode https dh max_len limit stream sched :
+  serve grow mode https dh max_len limit stream sched <> Panic.
+Proof.
+  unfold serve.
+  destruct (read_request grow mode https dh max_len _) as [qr| |] eqn:E; cbn [obind]; try discriminate.
+  - destruct (read_to_bytes grow mode _ _ limit (snd qr)) as [[b r']| |] eqn:Eb; try discriminate.
+    exfalso. eapply read_to_bytes_no_panic; eassumption.
+  - exfalso. eapply read_request_no_panic; eassumption.
+Qed.
+End Reader.
